@@ -32,7 +32,7 @@ ASSUMPTIONS = ['crys.G is the space group (checked by C18); its action on sites 
                'cutoffs equal to a neighbour distance (ties) are excluded',
                'vacancy-TS reference follows the four variants documented in the comments of makeTSclusters']
 
-CRYSTALS = ['FCC', 'BCC', 'HCP', 'B2AB', 'FCC_O', 'SKEWSQ', 'P1AAB']    # SKEWSQ: skewed noreduce cell (design finding F9)
+CRYSTALS = ['FCC', 'BCC', 'HCP', 'B2AB', 'FCC_O', 'SKEWSQ', 'P1AAB', 'P1CHAIN']    # SKEWSQ: skewed noreduce cell (design finding F9)
 
 
 def _nshell(tier): return 3 if tier == 'quick' else 4
